@@ -173,7 +173,12 @@ pub fn reader(path: &str) {
         let mut i = 0;
         let ops = parse(&f[2..], &mut i);
         let toks = RefCell::new(Vec::<String>::new());
-        let src = Grow(Rc::new(RefCell::new(VecDeque::from(unhex(f[1])))));
+        // `<hex>@<n>`: a source that hands out short reads (see Grow)
+        let (hex, dribble) = match f[1].split_once('@') {
+            Some((h, d)) => (h, d.parse::<u64>().unwrap()),
+            None => (f[1], 0),
+        };
+        let src = Grow::new(VecDeque::from(unhex(hex)), dribble);
         let res = catch(|| {
             let mut r = H263Reader::from_source(src.clone());
             let _ = run(&ops, &mut r, &src, false, &toks);
